@@ -31,7 +31,7 @@ ASSUMPTIONS = [
 FLOORS = {'quick': {'states': 300, 'transitions': 5000, 'counter:rejected': 1500, 'outcomes': 10}, 'thorough': {'states': 300, 'transitions': 5000, 'counter:rejected': 1500, 'outcomes': 10}}
 
 SEED = (
-    '@charset "utf-8";\n@import "x.css" print;\n@namespace q "v";\n@namespace p "u";\n@variables { v: 1; vv: 2 }\n/*c*/\n'
+    '@charset "utf-8";\n@import "x.css" print;\n@namespace q "v";\n@namespace p "u";\n@namespace r "w";\n@variables { v: 1; vv: 2 }\n/*c*/\n'
     'a, p|b > c { color: red; top: 1px !important }\n'
     '@media print, tv { d { x: y } }\n'
     '@page :first { margin: 0; @top-left { x: y } }\n'
@@ -62,6 +62,7 @@ TARGETS = {
     'import': lambda s: rule_of(s, R.IMPORT_RULE),
     'import.media': lambda s: rule_of(s, R.IMPORT_RULE).media,
     'namespace': lambda s: rule_of(s, R.NAMESPACE_RULE),
+    'namespace.last': lambda s: rule_of(s, R.NAMESPACE_RULE, 2),
     'comment': lambda s: rule_of(s, R.COMMENT),
     'style': lambda s: rule_of(s, R.STYLE_RULE),
     'style.selectorList': lambda s: rule_of(s, R.STYLE_RULE).selectorList,
@@ -173,6 +174,8 @@ MUTATORS = {
     'import': [('cssText=', _set('cssText'), IMPORT_TEXTS), ('href=', _set('href'), ['y.css', '', None]), ('media=', _set('media'), MEDIA_TEXTS), ('name=', _set('name'), ['n', '', None, 3])],
     'import.media': [('mediaText=', _set('mediaText'), MEDIA_TEXTS), ('appendMedium', lambda o, m: o.appendMedium(m), MEDIA_TEXTS), ('deleteMedium', lambda o, m: o.deleteMedium(m), ['print', 'tv', '3d', ''])],
     'namespace': [('cssText=', _set('cssText'), NAMESPACE_TEXTS), ('prefix=', _set('prefix'), ['q', 'p', '', '$$', 'p q', None]), ('namespaceURI=', _set('namespaceURI'), ['u', 'v', '', None])],
+    # (the last @namespace rule: taking the prefix of an earlier rule whose URI is in use has to be refused)
+    'namespace.last': [('prefix=', _set('prefix'), ['p', 'q', 'x', '']), ('namespaceURI=', _set('namespaceURI'), ['u', 'v']), ('cssText=', _set('cssText'), ['@namespace p "w";', '@namespace p "u";'])],
     'comment': [('cssText=', _set('cssText'), COMMENT_TEXTS)],
     'style': [('cssText=', _set('cssText'), STYLE_RULE_TEXTS), ('selectorText=', _set('selectorText'), SELECTOR_TEXTS), ('style=', _set('style'), DECL_TEXTS)],
     'style.selectorList': [('selectorText=', _set('selectorText'), SELECTOR_TEXTS), ('appendSelector', lambda o, t: o.appendSelector(t), SELECTOR_TEXTS),
